@@ -174,8 +174,48 @@ Proof. exists w_data, w_ptr. exact legacy_returns_pointer. Qed.
    empty string): threshold rule, uploaded object = IPC stream of [with_side b side], checksum
    of the raw stream, round trip to [with_side b side], soundness of every ROk, honest
    streams resolve.  No premise on the side metadata any more (fix 36fcb9e). *)
-Theorem spec_holds_on_model : forall i, digest_ok i = true -> spec_ok i (model i) = true.
+Theorem spec_holds_on_model : forall i,
+  digest_ok i = true -> conc_ok i = true -> spec_ok i (model i) = true.
 Proof. exact model_meets_spec. Qed.
+
+(* ---- 7. overlapped externalizations: each one owns its bytes ------------------------ *)
+(* Externalization k = serialize batch k, hash, (zstd) compress, upload (the storage copies
+   what it is handed when the step runs).  For EVERY number of externalizations in flight and
+   EVERY interleaving of their steps that keeps each one's program order ([wf_sched]), what
+   externalization k put in its pointer and what the storage holds for it are functions of
+   batch k alone: the checksum of the raw stream of batch k, and that stream (compressed iff
+   configured).  [false] = serializeBatchAsIPC writes into a buffer of its own (the code). *)
+Theorem stored_object_depends_on_own_batch_only :
+  forall (wire : Type) (enc : list batch -> wire) (comp : wire -> wire) (sha : wire -> bytes)
+         (zstd : bool) (jb : nat -> batch) (n : nat) (s : list step) (k : nat),
+  wf_sched zstd n s = true -> (k < n)%nat ->
+  let j := cs_job (srun wire enc comp sha false zstd jb (cs0 wire) s) k in
+  j_sha j = Some (sha (enc [jb k])) /\
+  j_obj j = Some (if zstd then comp (enc [jb k]) else enc [jb k]).
+Proof. exact own_bytes_lemma. Qed.
+
+(* hence, with the codec premises, every pointer of an overlapped run resolves to exactly its
+   own batch: this is [spec_holds_on_model] on [Conc] inputs ([conc_ok] = the schedule is an
+   interleaving, batches have rows and are not tagged as logs, URLs are accepted). *)
+
+(* The variant in which the serialization buffer comes from a shared pool and is handed back
+   when serializeBatchAsIPC returns (bytes.Buffer from a sync.Pool, buf.Bytes() returned,
+   deferred Put) violates it, with two externalizations A, B and no compression:
+   schedule 1 = A serializes and hashes, is parked in its upload; B runs completely; A's upload
+   copies: the object stored for A is B's stream under A's checksum, resolving A is refused;
+   schedule 2 = B serializes between A's serialization and A's hash: A's pointer carries the
+   checksum of B's stream, validates, and resolves to B's values. *)
+Theorem pooled_serialization_buffer_refuted :
+  let i1 := Conc w_tbl2 false VHttps w_jobs [SSer 0; SHash 0; SSer 1; SHash 1; SUp 1; SUp 0] in
+  let i2 := Conc w_tbl2 false VHttps w_jobs [SSer 0; SSer 1; SHash 0; SUp 0; SHash 1; SUp 1] in
+  digest_ok i1 = true /\ conc_ok i1 = true /\ digest_ok i2 = true /\ conc_ok i2 = true /\
+  (exists o1, model_pooled i1 = OConc [o1; nth 1 (conc_outs false w_tbl2 false VHttps w_jobs w_sched_upload) dummy_out]
+              /\ jo_up o1 = [(SIpc [w_data2], false)] /\ jo_res o1 = Some (RErr ESha)) /\
+  (exists o1 o2, model_pooled i2 = OConc [o1; o2]
+              /\ jo_res o1 = Some (ROk w_data2 (fetch_meta (str "https://h/o/1")))) /\
+  spec_ok i1 (model_pooled i1) = false /\ spec_ok i2 (model_pooled i2) = false /\
+  spec_ok i1 (model i1) = true /\ spec_ok i2 (model i2) = true.
+Proof. exact pooled_refuted_lemma. Qed.
 
 (* before 36fcb9e the upload was serializeBatchAsIPC(batch, nil): metadata handed over next to
    the batch was neither uploaded nor put on the pointer, so the resolved batch came back
